@@ -3,6 +3,7 @@
 CACHE <hex ops>            run an operation history against the real `CreateTableStatementGetter` in a fresh temporary
                            directory (ops joined by `;`:  new | nodisk | get:<hex name> | crash:<steps>:<flushed>:<hex name>);
                            same answer format as `lean/MsqModel/Driver/CmdCache.lean`.
+LINH <dialect> <shared|fresh> <hex sql>…   (implementation only) a history of lineage requests in one process, see `cmd_linh`
 LIN <dialect> <hex sql>    (implementation only) table lineage of every SELECT / INSERT…SELECT statement of the text with the
                            provider cold, warm in memory, warm on disk in a new instance, and without a directory: the
                            results, and the provider call log of each phase.
@@ -17,6 +18,14 @@ def hx(s):
 
 def unhx(h):
     return bytes.fromhex(h).decode("utf-8")
+
+
+def fnv1a(s):
+    """FNV-1a (64 bit) of the UTF-8 bytes, in hex (same function as `Drv.fnv1a`)"""
+    h = 0xcbf29ce484222325
+    for b in s.encode("utf-8"):
+        h = ((h ^ b) * 0x100000001b3) & 0xFFFFFFFFFFFFFFFF
+    return "%x" % h
 
 
 def provider(name):
@@ -136,7 +145,7 @@ def run_ops(ops):
                 asked = lambda: "+" if len(calls) != before else "-"
                 try:
                     st = inst.get_statement(name)
-                    out.append(asked() + "S" + canon.dump(st))
+                    out.append(asked() + "S#" + fnv1a(canon.dump(st)))
                 except Crash:
                     out.append(asked() + "CRASHED")
                     inst = None
@@ -180,11 +189,11 @@ def show_lineage(x):
     return canon.dump(x)
 
 
-def analyse(getter, stmts):
+def analyse(getter, stmts, analyzer=None):
     from metasequoia_sql.analyzer.data_linage.table_lineage_analyzer import TableLineageAnalyzer
     from metasequoia_sql.core import node as N
     import contextlib, io
-    a = TableLineageAnalyzer(getter)
+    a = analyzer if analyzer is not None else TableLineageAnalyzer(getter)
     out = []
     for st in stmts:
         try:
@@ -262,4 +271,38 @@ def cmd_lin(parts):
         shutil.rmtree(outer, ignore_errors=True)
 
 
-COMMANDS = {"CACHE": cmd_cache, "LIN": cmd_lin}
+def cmd_linh(parts):
+    """LINH <dialect> <shared|fresh> <hex statement>…   a HISTORY of lineage requests in this process: `shared` = one provider and one
+    analyzer for the whole history, `fresh` = a new provider, analyzer (and so storage) for every statement.  Per statement: the lineage
+    and the names the provider was asked for while analysing it.  (The harness runs every history in a process of its own.)"""
+    from metasequoia_sql import SQLParser, SQLType
+    from metasequoia_sql.analyzer import tool
+    st = SQLType[parts[1]]
+
+    class G(tool.CreateTableStatementGetter):
+        def __init__(self):
+            super().__init__(None)
+            self.calls = []
+
+        def get_sql(self, full_table_name):
+            self.calls.append(full_table_name)
+            return lin_provider(full_table_name)
+
+    from metasequoia_sql.analyzer.data_linage.table_lineage_analyzer import TableLineageAnalyzer
+    shared = G() if parts[2] == "shared" else None
+    shared_analyzer = TableLineageAnalyzer(shared) if shared is not None else None
+    out = []
+    for h in parts[3:]:
+        try:
+            stmts = SQLParser.parse_statements(canon.unhex(h), sql_type=st)
+        except Exception as e:
+            out.append("r=P:" + canon.err_kind(e).replace(" ", "_") + ";c=")
+            continue
+        g = shared if shared is not None else G()
+        before = len(g.calls)
+        res = analyse(g, stmts, shared_analyzer)
+        out.append("r=" + "|".join(res) + ";c=" + ",".join(hx(n) for n in g.calls[before:]))
+    return "OK " + " ".join(out)
+
+
+COMMANDS = {"CACHE": cmd_cache, "LIN": cmd_lin, "LINH": cmd_linh}
